@@ -581,6 +581,11 @@ Proof.
     pose proof (prepare2_wf (getc s x) k (usable_wf c s x HI)) as Hw.
     destruct (prepare2 (getc s x) k) as [[[cn ms] r1] r2]. inversion Hs; subst. cbn [fst] in Hw.
     apply inv_user; assumption.
+  - (* prepare through a transaction wrapper *)
+    destruct (usable s x) eqn:E; [|discriminate]. destruct (via_ready (getc s x)); cbn [andb] in Hs; [|discriminate].
+    pose proof (prepare1_wf (getc s x) k (usable_wf c s x HI)) as Hw.
+    destruct (prepare1 (getc s x) k) as [[cn ms] res]. inversion Hs; subst. cbn [fst] in Hw.
+    apply inv_user; assumption.
   - (* cache clear *)
     destruct (usable s x) eqn:E; [|discriminate]. inversion Hs; subst.
     apply (inv_user c s x _ []); [assumption | assumption | apply wf_clear].
